@@ -26,8 +26,8 @@ type SeqV struct{ vals []Value }
 
 var (
 	shaHasherT = types.NewPointer(types.NewNamed(types.NewTypeName(0, nil, "sha256Hasher", nil), types.NewStruct(nil, nil), nil))
-	ctxTokT   = types.NewPointer(types.NewNamed(types.NewTypeName(0, nil, "opaqueContext", nil), types.NewStruct(nil, nil), nil))
-	rtypeTokT = types.NewPointer(types.NewNamed(types.NewTypeName(0, nil, "reflectTypeToken", nil), types.NewStruct(nil, nil), nil))
+	ctxTokT    = types.NewPointer(types.NewNamed(types.NewTypeName(0, nil, "opaqueContext", nil), types.NewStruct(nil, nil), nil))
+	rtypeTokT  = types.NewPointer(types.NewNamed(types.NewTypeName(0, nil, "reflectTypeToken", nil), types.NewStruct(nil, nil), nil))
 )
 
 func ctxValue() Value { return IfaceV{typ: ctxTokT, v: PtrV{}} }
@@ -121,14 +121,14 @@ func init() {
 			b := e.load(st, args[0].(PtrV)).(StructV).f[1].(SliceV)
 			return e.ts.BV(uint64(b.len), 64)
 		},
-		"(*strings.Builder).Grow":  noop,
+		"(*strings.Builder).Grow": noop,
 		"(*strings.Builder).Reset": func(e *Engine, st *State, args []Value) Value {
 			p := args[0].(PtrV)
 			e.store(st, PtrV{obj: p.obj, path: appendPath(p.path, PathEl{idx: 1})}, SliceV{})
 			return nil
 		},
 		"(*encoding/base64.Encoding).EncodeToString": modelOpaqueStr,
-		"strconv.Itoa":                               modelOpaqueStr,
+		"strconv.Itoa": modelOpaqueStr,
 		"time.Date": func(e *Engine, st *State, args []Value) Value {
 			var a [7]int
 			for i := 0; i < 7; i++ {
